@@ -687,6 +687,30 @@ theorem bound_differs_from_unbound (ch cid d d0 : Bytes)
     rw [xorBytes_self, hrl] at this
     exact this
 
+/-- **cryptosign_data** (summary of the above for a well-formed challenge `ch` decoding to `raw`):
+without binding the client signs `raw`; with tls-unique and a 32-octet channel id it signs `raw ⊕ cid`;
+the answer is `hex(sig) ++ hex(data)`; a router with any correct signature scheme accepts it; and a
+different channel id gives different signed data. -/
+theorem cryptosign_data (sign : Bytes → Bytes) (verify : Bytes → Bytes → Bool)
+    (hv : ∀ m, verify m (sign m) = true) (hlen : ∀ m, (sign m).length = 64)
+    (ch raw : Bytes) (hl : ch.length = 64) (hd : HexText.decode ch = some raw) :
+    signChallenge sign ch none .none = .ok (HexText.encode (sign raw) ++ HexText.encode raw)
+    ∧ routerAccepts verify raw (signature sign raw) = true
+    ∧ ∀ cid, cid.length = 32 →
+        signChallenge sign ch (some cid) .tlsUnique
+          = .ok (HexText.encode (sign (xorBytes raw cid)) ++ HexText.encode (xorBytes raw cid))
+        ∧ routerAccepts verify (xorBytes raw cid) (signature sign (xorBytes raw cid)) = true
+        ∧ ∀ cid', cid'.length = 32 → cid' ≠ cid → xorBytes raw cid' ≠ xorBytes raw cid := by
+  have hr : raw.length = 32 := by have := HexText.decode_length ch raw hd; omega
+  refine ⟨?_, router_accepts sign verify hv hlen raw, fun cid hc => ⟨?_, router_accepts sign verify hv hlen _, ?_⟩⟩
+  · have : format ch none .none = .ok raw := (format_none ch none raw).mpr ⟨hl, hd⟩
+    simp [signChallenge, this, Except.map, signature]
+  · have : format ch (some cid) .tlsUnique = .ok (xorBytes raw cid) :=
+      (format_tls ch (some cid) _).mpr ⟨raw, cid, hl, hd, rfl, hc, hr, rfl⟩
+    simp [signChallenge, this, Except.map, signature]
+  · intro cid' hc' hne e
+    exact hne (xorBytes_right_inj (by omega) (by omega) e)
+
 end Cryptosign
 
 /-! ## non-vacuity: concrete instances satisfy the hypotheses used above -/
